@@ -23,6 +23,25 @@
       elements are the key list, otherwise the operand list itself;
   K6  threshold: missing_some returns the empty array exactly on the edge
       `present >= threshold` and the missing list on the other.
+
+K2–K6 are read on shape-independent representations (DESIGN §2 E2b), on the view of the program in which the private
+helpers and methods of the two operators (never the shared lookup) stand at their call sites (`flat_view`):
+  * the per-key step — the closure handed to the iterator consumer or one iteration of the loop, whichever holds the
+    lookup — is enumerated path by path (`x_step.StepWalker`, one walk per key kind); each path is a row of the table
+    key kind × lookup result (None/Some/is_none/is_some atoms on the lookup call) → pushes, contains-guards, count delta;
+    K2.null-skipped, K3.push-absent, K3.count-present-only, K3.increment(-by-one), K4.push-key, K4.distinct and the two
+    converses K3.absent-reported / K3.present-counted are statements about rows;
+  * the present count is either the accumulator the closure returns (delta = result relative to the parameter) or a
+    storage cell updated in place — a local or a field of a local struct, resolved through `&mut` temporaries
+    (`x_step.cell_of`) — (delta = the constant increments stored on the path);
+  * K6: the comparison after the scan, operands classified as count / threshold (an exact u64 reading of operand 0:
+    Number::as_u64 or Value::as_u64; as_i64/as_f64 are violations), operator normalised, outcomes = what every path
+    from each edge returns (a vector created after the decision is empty, one created before it is the list);
+  * K5: the paths of `missing` up to the scan(s): the scanned sequence is operand 0's Array payload (operand
+    descriptor fixed(ALL)[0]) or the operand list on paths where operand 0 is known not to be an array / absent; and no
+    operand other than operand 0 has its kind examined.
+A form that cannot be read (opaque calls on the path, a test on the lookup result that is not None/Some, an unknown
+guard) is reported with ctx.unread, never as a violation and never as a pass.
 """
 import re
 from .core import (callee_of, callee_path, strip_refs, strip_payload, show_expr, const_value, expr_mentions, op_const, edge_dominates, bool_edge, switch_edges_for_variant)
@@ -45,55 +64,101 @@ CMP_NEG = {"Ge": "Lt", "Lt": "Ge", "Gt": "Le", "Le": "Gt"}
 
 
 def lookup_role(roles):
+    """The shared lookup, by type: the one function of two parameters — the data (&Value) and a key (KeyType, by value or
+    by reference, in either position: a free function or a method of the key) — returning Option<Value>."""
     facts = roles.facts
     c = []
     for b in facts.fns():
         it = facts.items.get(b.key, {})
-        if b.kind == "fn" and len(it.get("inputs", [])) == 2 and it["inputs"][0] == "&serde_json::Value" and it.get("output") == "std::option::Option<serde_json::Value>" and "KeyType" in it["inputs"][1]:
-            c.append(b)
+        ins = it.get("inputs", [])
+        if b.kind == "fn" and len(ins) == 2 and it.get("output") == "std::option::Option<serde_json::Value>":
+            d = [i for i, t in enumerate(ins) if t == "&serde_json::Value"]
+            k = [i for i, t in enumerate(ins) if "KeyType" in t and "Value" not in t]
+            if len(d) == 1 and len(k) == 1:
+                b.data_param, b.key_param = d[0] + 1, k[0] + 1
+                c.append(b)
     if len(c) != 1:
         raise Inconclusive("shared lookup (&Value, KeyType) → Option<Value> not identified (%d candidates)" % len(c))
     return c[0]
 
 
+def lookup_key_adt(lookup):
+    kp = getattr(lookup, "key_param", 2)
+    adt = lookup.locals[kp].get("adt")
+    if not adt:
+        adt = re.sub(r"^&('\w+ )?(mut )?", "", lookup.locals[kp]["ty"]).split("<")[0]
+    return adt
+
+
 def key_typing(ctx, facts, roles, key_adt, cfg, K):
-    """Which JSON kinds become which key kinds — the same matrix in both conversions (from Value, from &Value)."""
+    """Which JSON kinds become which key kinds — one decision table per conversion (from Value, from &Value), read
+    from the decision cases of the conversion (match arms, guards, `?`, Option/Result combinators alike) with the
+    private helpers the conversions delegate to standing at their call sites."""
+    from . import inline, optnorm
     items = facts.items
-    convs = [b for b in facts.fns() if b.kind == "fn" and items.get(b.key, {}).get("output", "").startswith("std::result::Result<%s" % key_adt) and items[b.key].get("inputs") in (["serde_json::Value"], ["&serde_json::Value"])]
-    ctx.floor("KeyType conversions (%s)" % cfg, len(convs), 2)
+
+    def is_conv(f, b):
+        return b.kind == "fn" and f.items.get(b.key, {}).get("output", "").startswith("std::result::Result<%s" % key_adt) and f.items[b.key].get("inputs") in (["serde_json::Value"], ["&serde_json::Value"])
+    convs = [b for b in facts.fns() if is_conv(facts, b)]
+    try:
+        path = ctx.fact_paths[(cfg, "jsonlogic_rs", "debug")]
+        cands = set(inline.candidates(path))
+        helpers = set()
+        for cb in convs:
+            for x in Unit(roles, cb.key, extended=True).bodies:
+                if x.kind == "fn" and x.key in cands:
+                    helpers.add(x.key)
+        if helpers:
+            view = inline.load_view(path, sorted(helpers | set(h for h in ctx.inline_set if h.startswith("jsonlogic_rs::"))))
+            vconvs = [b for b in view.fns() if is_conv(view, b)]
+            if vconvs:
+                facts, convs = view, vconvs
+    except Exception:
+        pass
+    ctx.floor("KeyType conversions (%s)" % cfg, len(convs), 1)
+    variants = set(facts.variants(key_adt))
+
+    def outcome(val):
+        x = strip_refs(val)
+        if x[0] == "agg" and x[1].get("variant") == "Ok" and x[2]:
+            k = strip_refs(x[2][0])
+            if k[0] == "agg" and k[1].get("adt") == key_adt:
+                return "OK(%s)" % k[1].get("variant"), k
+            if k[0] == "call" and k[1] is not None and k[1]["path"].rsplit("::", 1)[-1] in variants and key_adt.rsplit("::", 1)[-1] in k[1]["path"]:
+                return "OK(%s)" % k[1]["path"].rsplit("::", 1)[-1], k
+            return "?", k
+        if (x[0] == "agg" and x[1].get("variant") == "Err") or (x[0] == "call" and x[1] is not None and "from_residual" in x[1]["path"]):
+            return "ERR", x
+        return "?", x
+    want = {"Null": "OK(Null)", "String": "OK(String)", "Number": "ERR+OK(Number)+via as_i64", "Bool": "ERR", "Array": "ERR", "Object": "ERR"}
     mats = []
     for cb in convs:
         m = {}
-        u = Unit(roles, cb.key)
         for v in facts.variants(VALUE):
-            restrict = P.specialise_unit(roles, cb.key, lambda e, a, _v=v: _v if (a == VALUE and e == ("arg", 1)) else None)
-            blocks = restrict[cb.key]
-            with cb.restricted(blocks):
-                r = strip_refs(cb.trace(0))
-            paths = [callee_path(cb.blocks[bi]["term"]) for bi in sorted(blocks) if cb.blocks[bi]["term"]["k"] == "Call" and callee_of(cb.blocks[bi]["term"])]
-            cands = [strip_refs(x) for x in r[2]] if r[0] == "phi" else [r]
+            cases = optnorm.decision_cases(facts, cb, known=lambda e, adt, _v=v: _v if (adt == VALUE and strip_refs(e) == ("arg", 1)) else None)
+            key = "%s: %s key (%s)" % (cb.key.split("::", 1)[1], v, cfg)
+            if not cases:
+                m[v] = None
+                ctx.unread(K + ".key-typing", key, "the conversion's decision cases could not be enumerated (loops or too many paths)", where=cb.where(), fn=cb.key)
+                continue
             kinds = set()
-            for c in cands:
-                if c[0] == "agg" and c[1].get("variant") == "Ok":
-                    k = strip_refs(c[2][0])
-                    kinds.add("OK(%s)" % (k[1].get("variant") if k[0] == "agg" else "?"))
-                elif c[0] == "agg" and c[1].get("variant") == "Err":
-                    kinds.add("ERR")
-                elif c[0] == "call" and "from_residual" in c[1]["path"]:
-                    kinds.add("ERR")
-                else:
-                    kinds.add("?")
-            if "serde_json::Number::as_i64" in paths:
-                kinds.add("via as_i64")
-            m[v] = "+".join(sorted(kinds))
-        mats.append((cb, m))
-        want = {"Null": "OK(Null)", "String": "OK(String)", "Number": "ERR+OK(Number)+via as_i64", "Bool": "ERR", "Array": "ERR", "Object": "ERR"}
-        for v, got in m.items():
-            ctx.check(got == want[v], K + ".key-typing", "%s: %s key (%s)" % (cb.key.split("::", 1)[1], v, cfg), "a %s key is typed as %s; expected %s" % (v, got, want[v]), where=cb.where(), fn=cb.key, nontrivial=True,
+            for conds, val, pth in cases:
+                o, k = outcome(val)
+                kinds.add(o)
+                if o == "OK(Number)" and expr_mentions(k, lambda y: y[0] == "call" and y[1] is not None and y[1]["path"] == "serde_json::Number::as_i64"):
+                    kinds.add("via as_i64")
+                elif o == "OK(Number)" and any("serde_json::Number::as_i64" in str(ck) or "as_i64(" in str(ck) for ck in conds) and expr_mentions(k, lambda y: y[0] == "payload"):
+                    kinds.add("via as_i64")
+            got = "+".join(sorted(kinds))
+            m[v] = got
+            if "?" in kinds and all(x2 in want[v].split("+") or x2 == "?" for x2 in kinds):
+                ctx.unread(K + ".key-typing", key, "one outcome of the conversion for a %s could not be read as Ok(key kind) or Err" % v, where=cb.where(), fn=cb.key)
+                continue
+            ctx.check(got == want[v], K + ".key-typing", key, "a %s key is typed as %s; expected %s" % (v, got, want[v]), where=cb.where(), fn=cb.key, nontrivial=True,
                       sample={"conversion": cb.key, "kind": v, "outcome": got})
-    if len(mats) >= 2:
+        mats.append((cb, m))
+    if len(mats) >= 2 and all(None not in m.values() for _, m in mats):
         ctx.check(all(m == mats[0][1] for _, m in mats), K + ".key-siblings", "both KeyType conversions agree (%s)" % cfg, "the conversions from Value and &Value type keys differently", where=convs[0].where(), nontrivial=True)
-
 
 
 def run(ctx):
@@ -110,7 +175,8 @@ def run(ctx):
         roles = Roles(facts)
         p = P.Prov(roles).run()
         lookup = lookup_role(roles)
-        key_adt = lookup.locals[2]["adt"]
+        key_adt = lookup_key_adt(lookup)
+        di, ki = lookup.data_param - 1, lookup.key_param - 1
         # K2 (first half): only a JSON null is a null key — the gate the skipping below is keyed on
         key_typing(ctx, facts, roles, key_adt, cfg, "K2")
         units = {}
@@ -127,9 +193,9 @@ def run(ctx):
             lk = u.calls_to(lookup.key)
             ctx.check(len(lk) >= 1, "K1.shared-lookup", "%s uses the shared lookup (%s)" % (name, cfg), "%s never calls the shared lookup %s" % (name, lookup.key.split("::", 1)[1]), where=root.where(), fn=root.key, nontrivial=True)
             for s in lk:
-                dt = p.op_tags(s.body, s.term["args"][0])
+                dt = p.op_tags(s.body, s.term["args"][di])
                 ctx.check(dt == {"DATA"}, "K1.lookup-on-data", "%s looks keys up in the data (%s, %s)" % (name, s.where(), cfg), "lookup applied to a value with provenance %s" % sorted(dt), where=s.where(), fn=s.body.key)
-                kx = strip_payload(s.body.xtrace(s.term["args"][1]))
+                kx = strip_payload(s.body.xtrace(s.term["args"][ki]))
                 via_gate = kx[0] == "call" and kx[1] and kx[1]["path"] in ("<T as std::convert::TryInto<U>>::try_into",) or (kx[0] == "call" and kx[1] and "TryFrom" in kx[1]["path"])
                 ctx.check(bool(via_gate), "K1.key-gate", "%s converts keys through the KeyType gate (%s, %s)" % (name, s.where(), cfg), "the key handed to the lookup is %s" % show_expr(kx)[:120], where=s.where(), fn=s.body.key)
             for b in u.bodies:
@@ -672,6 +738,8 @@ def key_list(ctx, facts, u, lookup, cfg):
     base = 1 if root.kind == "closure" else 0
     argsp = base + 2
     lk = u.calls_to(lookup.key)
+    if not lk:
+        return      # K1.shared-lookup has reported it
     step_closures = set()
     headers = {}
     for s in lk:
